@@ -129,6 +129,39 @@ theorem isHnf_sound' (m n : Nat) (H : Mat) (h : isHnf m n H = true) :
       rw [pow_two, pow_two]
       exact this
 
+theorem isHnf_complete' (m n : Nat) (H : Mat) (h : IsHnf m n (ent H) (leadCol n H)) : isHnf m n H = true := by
+  simp only [isHnf, allLt_iff, Bool.and_eq_true, Bool.or_eq_true, Bool.not_eq_true', decide_eq_true_eq,
+    decide_eq_false_iff_not, beq_iff_eq]
+  intro i hi
+  refine ⟨⟨⟨h.le i hi, ?_⟩, ?_⟩, ?_⟩
+  · intro j _
+    by_cases hj : j < leadCol n H i
+    · exact Or.inr (h.zero_left i hi j hj)
+    · exact Or.inl hj
+  · by_cases hl : leadCol n H i < n
+    · refine Or.inr ⟨h.pivot_pos i hi hl, ?_⟩
+      intro i' hi'
+      by_cases h1 : i < i'
+      · rw [if_pos h1]
+        simp only [Bool.and_eq_true, decide_eq_true_eq, beq_iff_eq]
+        exact ⟨h.strict i hi i' hi' h1 hl, h.below i hi i' hi' h1 hl⟩
+      · rw [if_neg h1]
+        by_cases h2 : i' < i
+        · rw [if_pos h2]
+          simp only [decide_eq_true_eq]
+          have := h.above i hi i' h2 hl
+          rw [pow_two, pow_two] at this
+          exact this
+        · rw [if_neg h2]
+    · exact Or.inl hl
+  · by_cases hl : leadCol n H i = n
+    · refine Or.inr ?_
+      intro i' hi'
+      by_cases h1 : i < i'
+      · exact Or.inr (h.zero_last i hi i' hi' h1 hl)
+      · exact Or.inl h1
+    · exact Or.inl (by simp [hl])
+
 /-! ### LLL-reducedness -/
 
 /-- `(bs, mu)` is the Gram–Schmidt decomposition of the (independent) rows of `B`:
@@ -163,6 +196,73 @@ theorem reducedWith_sound (m n : Nat) (B : Mat) (p q : Int) (bs mu : QMat)
     rcases h5 k hk with h | h
     · omega
     · rw [pow_two]; exact h
+
+/-! ### uniqueness of the Gram–Schmidt decomposition (the spec pins down `b*`, `μ`) -/
+
+theorem IsGS.orth_ne {m n : Nat} {B : Nat → Nat → Int} {bs mu : Nat → Nat → ℚ} (h : IsGS m n B bs mu)
+    {j k : Nat} (hj : j < m) (hk : k < m) (hjk : j ≠ k) : ∑ c ∈ range n, bs j c * bs k c = 0 := by
+  rcases Nat.lt_or_gt_of_ne hjk with h1 | h1
+  · rw [Finset.sum_congr rfl (fun c _ => mul_comm (bs j c) (bs k c))]
+    exact h.orth k hk j h1
+  · exact h.orth j hj k h1
+
+/-- `⟨b_i, b*_k⟩ = μ_ik·|b*_k|²` for `k < i` -/
+theorem IsGS.inner_eq {m n : Nat} {B : Nat → Nat → Int} {bs mu : Nat → Nat → ℚ} (h : IsGS m n B bs mu)
+    {i k : Nat} (hi : i < m) (hk : k < i) :
+    ∑ c ∈ range n, (B i c : ℚ) * bs k c = mu i k * ∑ c ∈ range n, bs k c * bs k c := by
+  have hkm : k < m := lt_trans hk hi
+  calc ∑ c ∈ range n, (B i c : ℚ) * bs k c
+      = ∑ c ∈ range n, (bs i c * bs k c + ∑ j ∈ range i, mu i j * (bs j c * bs k c)) := by
+        refine Finset.sum_congr rfl (fun c hc => ?_)
+        rw [h.decomp i hi c (mem_range.mp hc), add_mul, Finset.sum_mul]
+        congr 1
+        exact Finset.sum_congr rfl (fun j _ => by ring)
+    _ = ∑ c ∈ range n, bs i c * bs k c + ∑ j ∈ range i, mu i j * ∑ c ∈ range n, bs j c * bs k c := by
+        rw [Finset.sum_add_distrib, Finset.sum_comm]
+        congr 1
+        exact Finset.sum_congr rfl (fun j _ => by rw [Finset.mul_sum])
+    _ = ∑ j ∈ range i, (if j = k then mu i k * ∑ c ∈ range n, bs k c * bs k c else 0) := by
+        rw [h.orth i hi k hk, zero_add]
+        refine Finset.sum_congr rfl (fun j hj => ?_)
+        by_cases hjk : j = k
+        · rw [if_pos hjk, hjk]
+        · rw [if_neg hjk, h.orth_ne (lt_trans (mem_range.mp hj) hi) hkm hjk, mul_zero]
+    _ = mu i k * ∑ c ∈ range n, bs k c * bs k c := by
+        rw [Finset.sum_ite_eq' (range i) k]
+        simp [hk]
+
+/-- the Gram–Schmidt decomposition demanded by `IsGS` is unique -/
+theorem IsGS.unique {m n : Nat} {B : Nat → Nat → Int} {bs mu bs' mu' : Nat → Nat → ℚ}
+    (h : IsGS m n B bs mu) (h' : IsGS m n B bs' mu') :
+    ∀ i < m, (∀ c < n, bs i c = bs' i c) ∧ (∀ j < i, mu i j = mu' i j) := by
+  intro i
+  induction i using Nat.strong_induction_on with
+  | _ i ih =>
+    intro hi
+    have hmu : ∀ k < i, mu i k = mu' i k := by
+      intro k hk
+      have hkm : k < m := lt_trans hk hi
+      have e1 := h.inner_eq hi hk
+      have e2 := h'.inner_eq hi hk
+      have hbk : ∀ c ∈ range n, bs' k c = bs k c := fun c hc => ((ih k hk hkm).1 c (mem_range.mp hc)).symm
+      have s1 : ∑ c ∈ range n, (B i c : ℚ) * bs' k c = ∑ c ∈ range n, (B i c : ℚ) * bs k c :=
+        Finset.sum_congr rfl (fun c hc => by rw [hbk c hc])
+      have s2 : ∑ c ∈ range n, bs' k c * bs' k c = ∑ c ∈ range n, bs k c * bs k c :=
+        Finset.sum_congr rfl (fun c hc => by rw [hbk c hc])
+      rw [s1, s2] at e2
+      have hpos := h.pos k hkm
+      have := e1.symm.trans e2
+      exact mul_right_cancel₀ (ne_of_gt hpos) this
+    refine ⟨?_, hmu⟩
+    intro c hc
+    have d1 := h.decomp i hi c hc
+    have d2 := h'.decomp i hi c hc
+    have : ∑ j ∈ range i, mu i j * bs j c = ∑ j ∈ range i, mu' i j * bs' j c := by
+      refine Finset.sum_congr rfl (fun j hj => ?_)
+      have hj' := mem_range.mp hj
+      rw [hmu j hj', (ih j hj' (lt_trans hj' hi)).1 c hc]
+    rw [this] at d1
+    linarith
 
 /-! ### the row primitives keep `target = P·A` and `P·P⁻¹ = I` -/
 
